@@ -99,23 +99,31 @@ func poolProvenance(p *Prog, v ssa.Value, at ssa.Instruction, wantFields []strin
 	}
 	var app *ssa.Call
 	for _, r := range refs(call) {
-		if c, ok := r.(*ssa.Call); ok && calleeName(&c.Call) == "(*crypto/x509.CertPool).AppendCertsFromPEM" && c.Call.Args[0] == ssa.Value(call) {
+		c, ok := r.(*ssa.Call)
+		if !ok || len(c.Call.Args) == 0 || c.Call.Args[0] != ssa.Value(call) {
+			continue
+		}
+		switch calleeName(&c.Call) {
+		case "(*crypto/x509.CertPool).AppendCertsFromPEM":
+			// EVERY certificate that enters the pool is a trust anchor: each append must come from the configured CA data
+			tn, fn, _, ok := loadedField(c.Call.Args[1])
+			src := tn + "." + fn
+			okSrc := false
+			for _, w := range wantFields {
+				if ok && src == w {
+					okSrc = true
+				}
+			}
+			if !okSrc {
+				return "the pool is (also) filled from " + src + " instead of only the configured CA data " + strings.Join(wantFields, "/") + ": every certificate in it becomes a trust anchor"
+			}
 			app = c
+		case "(*crypto/x509.CertPool).AddCert", "(*crypto/x509.CertPool).AddCertWithConstraint":
+			return "a certificate is added to the pool directly (AddCert): it becomes a trust anchor besides the configured CA"
 		}
 	}
 	if app == nil {
 		return "nothing is appended to the pool (an empty RootCAs/ClientCAs pool falls back to nothing / system roots)"
-	}
-	tn, fn, _, ok := loadedField(app.Call.Args[1])
-	src := tn + "." + fn
-	okSrc := false
-	for _, w := range wantFields {
-		if ok && src == w {
-			okSrc = true
-		}
-	}
-	if !okSrc {
-		return "the pool is filled from " + src + " instead of the configured CA data " + strings.Join(wantFields, "/")
 	}
 	// result checked: `at` is dominated by the true edge of an If on the result
 	for _, g := range guardsOf(at.Block()) {
